@@ -48,7 +48,8 @@ M0 == [scn |-> 0, mode |-> "", maxroute |-> 0,
        quietM |-> [k \in KS |-> 0],
        cPrep |-> [s \in Stmts |-> 0], quietR |-> [s \in Stmts |-> 0],
        isDown |-> FALSE, lastDown |-> 0,
-       rlive |-> [s \in Stmts |-> FALSE],
+       nrc |-> [s \in Stmts |-> 0], nre |-> [s \in Stmts |-> 0],   \* computations begun / entries removed, per statement
+       ntab |-> [k \in KS |-> FALSE],       \* the latest fetch of the keyspace found no table t
        poisoned |-> [k \in KS |-> FALSE],   \* a fetch whose tables query failed ran to its end: partial metadata is cached
        dead |-> FALSE]
 
@@ -66,6 +67,15 @@ OpenRouteOn(mm, s, except) == \E x \in ActorNames \ {except} : mm.calls[x].open 
 \* [M3] the routing info a statement can legitimately have: the partition key of some version the keyspace has had
 ValidIdx(s, upto) == {RoutingIdx(PK(v), Binds(s)) : v \in 1 .. upto}
 IdxOf(r) == [i \in 1 .. Len(r.idx) |-> r.idx[i]]
+
+Present(p) == {p[PartNames[i]] : i \in 1 .. Len(PartNames)} \ {0}
+NoFetch == [k |-> "", parts |-> NoParts, done |-> FALSE, last |-> 0]
+FetchOf(mm, rid) == IF rid \in DOMAIN mm.fetch THEN mm.fetch[rid] ELSE NoFetch
+\* [M2] what a failed fetch produced is not kept (nor handed out): metadata comes from one complete fetch
+FetchKind(f, k, p) ==
+  IF f.k = k /\ f.done /\ f.parts = p THEN "ok"
+  ELSE IF f.k = k /\ f.parts.tb = 0 /\ p.tb = 0 /\ f.parts.ks = p.ks THEN "schema-failed-tables-query-cached"
+  ELSE "schema-result-not-a-complete-fetch"
 
 V(kind, r, extra) == [kind |-> kind, scn |-> r.scn, line |-> l, ev |-> r.ev, x |-> r.x, k |-> r.k, s |-> r.s, detail |-> ToString(extra)]
 
@@ -94,10 +104,13 @@ StepOf(r, mm) ==
          LET bs == {b \in mm.open : Len(KsFramesFor(b, r.k)) > b.pols[r.k]}
              b == CHOOSE x \in bs : \A y \in bs : x.line <= y.line
              fl == KsFramesFor(b, r.k)[b.pols[r.k] + 1][2]
-             stale == r.lab.t = "ok" /\ MinPart(PartsOfLab(r.lab)) < fl
-         IN IF bs = {} THEN <<mm, {}, {}, {}>>      \* a fetch the policy makes for another reason (host added ...)
+             p == PartsOfLab(r.lab)
+             stale == r.lab.t = "ok" /\ \E x \in Present(p) : x < fl
+             fk == IF r.lab.t = "ok" THEN FetchKind(FetchOf(mm, r.lab.rid), r.k, p) ELSE "ok"
+             vf == IF fk # "ok" THEN {V(fk, r, <<r.lab.rid, p>>)} ELSE {}
+         IN IF bs = {} THEN <<mm, vf, {}, {}>>      \* a fetch the policy makes for another reason (host added ...)
             ELSE <<[mm EXCEPT !.open = (@ \ {b}) \cup {[b EXCEPT !.pols[r.k] = @ + 1]}],
-                   IF stale THEN {V("policy-stale-after-keyspace-event", r, <<fl, PartsOfLab(r.lab)>>)} ELSE {}, {}, {}>>
+                   vf \cup (IF stale THEN {V("policy-stale-after-keyspace-event", r, <<fl, p>>)} ELSE {}), {}, {}>>
     [] r.ev = "call" ->
          LET ws == IF r.t = "route" /\ OpenRouteOn(mm, r.s, r.x) THEN mm.quietR[r.s]
                    ELSE IF r.t = "meta" /\ OpenOn(mm, r.k, r.x) THEN mm.quietM[r.k] ELSE l
@@ -108,16 +121,11 @@ StepOf(r, mm) ==
          LET c == mm.calls[r.x]
              lab == r.lab
              p == PartsOfLab(lab)
-             f == IF lab.rid \in DOMAIN mm.fetch THEN mm.fetch[lab.rid] ELSE [k |-> "", parts |-> NoParts, done |-> FALSE, last |-> 0]
+             f == FetchOf(mm, lab.rid)
              causes == {mm.cFail[r.k], mm.cAbsent[r.k]}
              \* (a part that is missing altogether is the business of v2)
-             present == {p[PartNames[i]] : i \in 1 .. Len(PartNames)} \ {0}
-             v1 == IF lab.t = "ok" /\ \E x \in present : x < c.floor THEN {V("schema-stale-after-event", r, <<c.floor, p>>)} ELSE {}
-             \* [M2] what a failed fetch produced is not kept (nor handed out)
-             v2 == IF lab.t = "ok" /\ ~(f.k = r.k /\ f.done /\ f.parts = p)
-                     THEN {V(IF f.k = r.k /\ f.parts.tb = 0 /\ p.tb = 0 /\ f.parts.ks = p.ks
-                               THEN "schema-failed-tables-query-cached" ELSE "schema-result-not-a-complete-fetch", r, <<lab.rid, p, f.parts>>)}
-                     ELSE {}
+             v1 == IF lab.t = "ok" /\ \E x \in Present(p) : x < c.floor THEN {V("schema-stale-after-event", r, <<c.floor, p>>)} ELSE {}
+             v2 == IF lab.t = "ok" /\ FetchKind(f, r.k, p) # "ok" THEN {V(FetchKind(f, r.k, p), r, <<lab.rid, p, f.parts>>)} ELSE {}
              v3 == IF lab.t = "nil" THEN {V("schema-nil-metadata-without-error", r, "")} ELSE {}
              v4 == IF lab.t \in {"err", "notexist"} /\ \A x \in causes : x < c.ws
                      THEN {V("schema-error-without-failed-fetch", r, lab.t)} ELSE {}
@@ -136,6 +144,7 @@ StepOf(r, mm) ==
              justified == \/ mm.isDown \/ mm.lastDown >= c.ws
                           \/ mm.cPrep[r.s] >= c.ws
                           \/ mm.cFail[r.k] >= c.ws \/ mm.cAbsent[r.k] >= c.ws \/ mm.cNoTable[r.k] >= c.ws
+                          \/ (r.err = "nometa" /\ mm.ntab[r.k])
              v1 == IF ~good THEN {V("routing-key-not-from-partition-key", r, <<r.ans, r.idx>>)} ELSE {}
              v2 == IF r.ans = "err" /\ ~justified
                      THEN {V(IF r.err = "noconn" THEN "routing-noconn-error-cached"
@@ -167,14 +176,18 @@ StepOf(r, mm) ==
                          !.liveLine[r.k] = IF done THEN l ELSE @,
                          !.poisoned[r.k] = IF r.part = "mv" /\ r.ans = "ok" /\ parts.tb = 0 THEN TRUE ELSE @,
                          !.cFail[r.k] = IF r.ans = "fail" THEN l ELSE @,
+                         !.ntab[r.k] = IF r.part = "tb" /\ r.ans = "ok" THEN r.flag ELSE @,
                          !.cNoTable[r.k] = IF r.part = "tb" /\ r.ans = "ok" /\ r.flag THEN l ELSE @], {}, {}, {}>>
     [] r.ev = "p_ans" -> <<[mm EXCEPT !.cPrep[r.s] = IF r.ans = "fail" THEN l ELSE @], {}, {}, {}>>
     [] r.ev = "down" -> <<[mm EXCEPT !.isDown = TRUE, !.lastDown = l], {}, {}, {}>>
     [] r.ev = "up" -> <<[mm EXCEPT !.isDown = FALSE, !.lastDown = l], {}, {}, {}>>
+    \* RouteSingleFlight of SchemaMeta.tla: a statement is computed again only after its entry left the cache.  The
+    \* removal is logged under the cache mutex, the computation when it reaches the prepared-statement cache (later
+    \* than its insertion), so the counts are compared, not the order.
     [] r.ev = "rk_comp" ->
-         <<[mm EXCEPT !.rlive[r.s] = TRUE],
-           IF mm.rlive[r.s] THEN {V("routing-recomputed-while-cached", r, "")} ELSE {}, {}, {}>>
-    [] r.ev = "rk_evict" -> <<[mm EXCEPT !.rlive[r.s] = FALSE], {}, {}, {}>>
+         <<[mm EXCEPT !.nrc[r.s] = @ + 1],
+           IF mm.nrc[r.s] + 1 > 1 + mm.nre[r.s] THEN {V("routing-recomputed-while-cached", r, <<mm.nrc[r.s] + 1, mm.nre[r.s]>>)} ELSE {}, {}, {}>>
+    [] r.ev = "rk_evict" -> <<[mm EXCEPT !.nre[r.s] = @ + 1], {}, {}, {}>>
     [] r.ev \in {"obs", "fin"} ->
          LET n == IF "rlru" \in DOMAIN r.obs THEN Len(r.obs.rlru) ELSE 0
              v1 == IF n > mm.maxroute /\ mm.maxroute > 0 THEN {V("routing-cache-exceeds-max", r, n)} ELSE {}
